@@ -24,6 +24,8 @@ def run(chk):
     chk.rule("ZERASE", "the USINGZ copies of the offset code (clipper.offset.cpp: every join / cap helper has an #ifdef USINGZ twin) equal the plain "
              "code after erasing Z-only constructs: the property holds in both builds or in neither")
     chk.rule("GROUP.strip-closed", "Group::Group strips a closing vertex (last == first) exactly for EndType::Polygon and EndType::Joined")
+    chk.rule("JOIN.dispatch", "OffsetPoint on convex vertices, every JoinType, either sign of delta, miter limits on both sides of the miter length: Miter -> DoMiter "
+             "iff the miter length is within the limit else DoSquare; Round -> DoRound(atan2(sin_a, cos_a)); Bevel -> DoBevel; Square -> DoSquare; arguments (path, j, k)")
     chk.rule("POLY.offset", "join formulas as identities of normal forms: GetUnitNormal is the right-hand unit normal; sin_a / cos_a are cross / dot of the "
              "two normals; DoMiter, DoBevel, DoRound (first point and rotation step), GetPerpendic(D) append the textbook points")
     chk.rule("TARGET.set", "solution, solution_tree and the derived miter threshold temp_lim_ are written by every ClipperOffset::Execute overload before "
@@ -41,6 +43,7 @@ def run(chk):
         e12.group_strip_rule(db, chk, cfg)
         from ..engines import e14_poly as e14
         e14.rule_offset(db, chk, cfg)
+        e12.join_dispatch_table(db, chk, cfg)
         # groups are offset independently of each other (several groups in one ClipperOffset)
         eng = e2.E2(db, chk, cfg, ["ClipperOffset"])
         OFF, why = offset_table(db)
